@@ -114,7 +114,8 @@ func runC02(c *Ctx) error {
 	exLen := c.Pick(4, 6)
 	c.Rule = "random and template grammars without error alternatives that gocc generates without announcing conflicts; inputs = all short strings over the terminals, random sentences, prefix+terminal probes and mutants, fed by token name; verdict compared with Earley membership; non-trivial = distinct (grammar, token sequence) with at least one token"
 	c.Assumptions = []string{"M-EARLEY is a correct recogniser (cross-checked against M-LR1 on every conflict-free grammar of the run)", "token sequences are delivered through the Scanner interface by name (TokMap.Type)"}
-	jobs := genSynJobs(c.Rng, nG, "g", synFilter{actionMode: 0, flags: flagsZipAlternate})
+	jobs := genSynJobs(c.Rng, nG, "g", synFilter{actionMode: 0, flags: flagsZipAlternate,
+		family: func(i int) string { return []string{"nulllist", "", "lr1notlalr", "", "lr2", "", "firstchain", "", "nullable", ""}[i%10] }})
 	jobs = append(jobs, corpusSynJobs(c, c.Rng, "k", synFilter{actionMode: 0, flags: flagsZipAlternate})...)
 	inRng := rand.New(rand.NewSource(c.Seed*31 + 2))
 	var refs []*parseRef
@@ -183,7 +184,8 @@ func runC03(c *Ctx) error {
 	nS := c.Pick(150, 600)
 	c.Rule = "conflict-free grammars with random recorder / default / empty actions ($i, $Ti, multi-digit indices, $Context); inputs = sentences, and for each a few placements of a failing action; the recorded event log (scans, action calls with argument identities, result) must equal the post-order evaluation by M-LR1; non-trivial = accepted sentence whose log contains at least one action call; distinct by (grammar, tokens, failing occurrence)"
 	c.Assumptions = []string{"M-LR1's reduction order equals the post-order of the unique parse tree of an unambiguous grammar", "token identity is observed as pointer identity of the *token.Token handed out by the harness scanner"}
-	jobs := genSynJobs(c.Rng, nG*2/3, "g", synFilter{class: func(k model.LRClass) bool { return k == model.ClassClean }, nonEmpty: true, actionMode: 0, flags: flagsZipAlternate})
+	jobs := genSynJobs(c.Rng, nG*2/3, "g", synFilter{class: func(k model.LRClass) bool { return k == model.ClassClean }, nonEmpty: true, actionMode: 0, flags: flagsZipAlternate,
+		family: func(i int) string { return []string{"long", "", "nullable", "", "long", "", "list", ""}[i%8] }})
 	// conflict-free grammars that also carry error alternatives: a failing action must stop Parse there too
 	jobs = append(jobs, genSynJobs(c.Rng, nG-len(jobs), "e", synFilter{class: func(k model.LRClass) bool { return k == model.ClassClean }, withErrors: true, nonEmpty: true, actionMode: 1, flags: flagsZipAlternate})...)
 	jobs = append(jobs, corpusSynJobs(c, c.Rng, "k", synFilter{class: func(k model.LRClass) bool { return k == model.ClassClean }, nonEmpty: true, actionMode: 0, flags: flagsZipAlternate})...)
@@ -341,10 +343,7 @@ func runC06(c *Ctx) error {
 	c.Assumptions = []string{"for a grammar whose nonterminals are all productive every non-empty Earley set is a viable prefix", "expected-token lists are compared as sets of names"}
 	jobs := genSynJobs(c.Rng, nG, "g", synFilter{class: func(k model.LRClass) bool { return k == model.ClassClean }, productive: true, nonEmpty: true, actionMode: 0, flags: flagsZipAlternate,
 		noStrLits: func(i int) bool { return i%3 == 0 }, family: func(i int) string {
-			if i%6 == 0 {
-				return "wide"
-			}
-			return ""
+			return []string{"wide", "", "lr1notlalr", "", "nulllist", ""}[i%6]
 		}})
 	jobs = append(jobs, corpusSynJobs(c, c.Rng, "k", synFilter{class: func(k model.LRClass) bool { return k == model.ClassClean }, productive: true, nonEmpty: true, actionMode: 0, flags: flagsZipAlternate})...)
 	inRng := rand.New(rand.NewSource(c.Seed*43 + 7))
